@@ -174,24 +174,43 @@ def run(ctx):
     for c, m in targets:
         ctx.touch(m)
         site = f"{c.relpath}::{c.name}.{m.name}"
-        ifs = [n for n in ast.walk(m.node) if isinstance(n, ast.If) and A.unparse(n.test).replace(" ", "") == "self.batch_sizeisNone"]
+        # the two arms of every `self.batch_size is None` decision, as a statement (if / else) or as a conditional expression
+        ifs = [n for n in ast.walk(m.node) if isinstance(n, (ast.If, ast.IfExp)) and A.unparse(n.test).replace(" ", "") == "self.batch_sizeisNone"]
+
+        def arms(n):
+            return (n.body, n.orelse) if isinstance(n, ast.If) else ([n.body], [n.orelse])
+
+        def calls_of(nodes, attr):
+            return [cc for st in nodes for cc in ast.walk(st) if isinstance(cc, ast.Call) and A.call_attr(cc) == attr]
+
         gathers = [cc for cc in A.calls_in(m.node) if A.call_attr(cc) == "gather"]
         einsums = [cc for cc in A.calls_in(m.node) if A.call_attr(cc) == "einsum"]
         flat_if = None
         flat_name = None
+        t_val = f_val = None
         gathered = {g.args[0].id for g in gathers if g.args and isinstance(g.args[0], ast.Name)}
         for n in ifs:
+            if not isinstance(n, ast.If):
+                continue
             names_t = {nm for st in n.body for nm in _assigned(st)}
             names_f = {nm for st in n.orelse for nm in _assigned(st)}
             both = names_t & names_f & gathered
             if both:
                 flat_if, flat_name = n, sorted(both)[0]
+                t_val = next(st.value for st in flat_if.body if flat_name in _assigned(st))
+                f_val = next(st.value for st in flat_if.orelse if flat_name in _assigned(st))
+        for g in gathers:  # the same decision written as an expression, in place or through a local
+            src = g.args[0] if g.args else None
+            if isinstance(src, ast.Name) and src.id in gathered:
+                defs = [st.value for st in ast.walk(m.node) if isinstance(st, ast.Assign) and src.id in _assigned(st)]
+                src = defs[0] if len(defs) == 1 else src
+            if isinstance(src, ast.IfExp) and src in ifs and flat_if is None:
+                flat_if, t_val, f_val = src, src.body, src.orelse
+                gathered = gathered | {"<conditional>"}
         if gathers and gathered and not (gathered <= {"auxdata"}) and any(gg not in A.params_of(m.node) for gg in gathered):
             if flat_if is None:
                 ctx.violated(r2, m, "gather(...)", "parameters are gathered through a local tensor but there is no batched/unbatched pair of definitions for it", node=m.node)
             else:
-                t_val = next(st.value for st in flat_if.body if flat_name in _assigned(st))
-                f_val = next(st.value for st in flat_if.orelse if flat_name in _assigned(st))
                 ok_t = A.unparse(t_val) == "pars"
                 ok_f = isinstance(f_val, ast.Call) and A.call_attr(f_val) == "reshape" and A.dotted(f_val.args[0]) == "pars" and A.const_value(f_val.args[1]) == (-1,)
                 if ok_t and ok_f:
@@ -200,8 +219,8 @@ def run(ctx):
                     ctx.violated(r2, m, flat_if, "the batched arm does not flatten the (batch, npars) parameters before gathering with flat indices (or the unbatched arm does): row 1 reads row 0's parameters", expected="pars | reshape(pars, (-1,))", found=f"{A.short(t_val, 40)} | {A.short(f_val, 40)}", node=flat_if)
         # einsum pairs under batch_size is None
         for n in ifs:
-            et = [cc for st in n.body for cc in A.calls_in(st) if A.call_attr(cc) == "einsum"]
-            ef = [cc for st in n.orelse for cc in A.calls_in(st) if A.call_attr(cc) == "einsum"]
+            et = calls_of(arms(n)[0], "einsum")
+            ef = calls_of(arms(n)[1], "einsum")
             if et and ef:
                 st_, sf_ = A.const_value(et[0].args[0]), A.const_value(ef[0].args[0])
                 ok = _einsum_pair(st_, sf_)
@@ -213,9 +232,9 @@ def run(ctx):
                     ctx.violated(r2, m, n, f"batched/unbatched einsum pair is inconsistent: {ok}", expected="'msab,m->msab' / 'msab,ma->msab'-like pair", found=f"{st_!r} / {sf_!r}", node=n)
         # interpolating appliers: alpha set fetched with explicit column indices when unbatched, default (batched) indices otherwise
         for n in ifs:
-            gt = [cc for st in n.body for cc in A.calls_in(st) if A.call_attr(cc) == "get" and "param_viewer" in (A.dotted(cc.func.value) or "")]
-            gf = [cc for st in n.orelse for cc in A.calls_in(st) if A.call_attr(cc) == "get" and "param_viewer" in (A.dotted(cc.func.value) or "")]
-            has_einsum = any(A.call_attr(cc) == "einsum" for st in n.body + n.orelse for cc in A.calls_in(st))
+            gt = [cc for cc in calls_of(arms(n)[0], "get") if "param_viewer" in (A.dotted(cc.func.value) or "")]
+            gf = [cc for cc in calls_of(arms(n)[1], "get") if "param_viewer" in (A.dotted(cc.func.value) or "")]
+            has_einsum = bool(calls_of(arms(n)[0] + arms(n)[1], "einsum"))
             if gt and gf and not has_einsum:
                 if len(gt[0].args) == 2 and len(gf[0].args) == 1 and A.dotted(gt[0].args[0]) == "pars" and A.dotted(gf[0].args[0]) == "pars":
                     ctx.holds(r2, f"{site}: alpha set", "unbatched: get(pars, indices as a column); batched: get(pars) with the viewer's (mods, batch) indices")
